@@ -21,6 +21,7 @@ serde field attributes, the closed Version and StatusCode tables (new(x) total w
 new(v as u16) == v for every variant) and the 'missing frame ⇒ Err' discipline (every StreamExt::next
 result goes through ok_or_else + two `?`) are decided from shapes and CFG paths; extensions never
 reach a raw header and are Default on decode.
+Serde helper attributes of the raw header types are read from the definition's source lines (the compiler drops them when lowering) and the derived impls may contain no custom (de)serialisation hook.
 """
 TRUSTED = ["serde/bincode round-trip of String, HashMap<String,String>, u16 (fixed-int little-endian default config)",
            "tokio-util LengthDelimitedCodec implements the configured length prefix",
